@@ -892,7 +892,7 @@ func init() {
 		ID:    "C07",
 		Level: "fault_enumeration",
 		Rule: "call histories Header? Scan×k stop post-ops for EVERY k=0..N+1 of small PBF (with and without header block) and XML inputs × stop kind {Close, cancel from the scanning goroutine, cancel from a second goroutine overlapping further Scans, cancel immediately followed by Close with a slow reader} × decoders {1,2,4,16} (race build), checked for linearizability against a sequential scanner model with porcupine; " +
-			"1000-block inputs with a counting reader for the bytes consumed after the stop; cancellation from the reader goroutine's Read callback or a timer with a slow consumer under the race detector; histories with an injected I/O error; a rejected first block followed by Close; endless input with a logical byte budget. " +
+			"1000-block inputs with a counting reader for the bytes consumed after the stop; cancellation from the reader goroutine's Read callback or a timer with a slow consumer under the race detector; histories with an injected I/O error (plain, or wrapping io.EOF as a lost connection does); parent contexts implemented outside package context with Close / run-to-the-end stops, after which no context-watcher goroutine may be left; a rejected first block followed by Close; endless input with a logical byte budget. " +
 			"Signature = (target, stop kind, decoders, stop-position class, post-ops, fault injected).",
 		Assumptions: []string{
 			"after a complete scan followed by Close/cancel, Err may be nil or the closed/context error (both satisfy the stated precedence)",
